@@ -147,25 +147,25 @@ fn application_body<const N: usize, const ENC: bool>() {
     kani::cover!(expect.is_none() && len == N);
 }
 
+/// PrivateMessageContent::mls_decode(reader, Application), buffer of <= 10 symbolic bytes:
+///   never panics; Ok <==> the buffer is  len||data||len||signature||0*  (any non-zero padding
+///   byte ==> Err); the reported data / signature are the announced sub-slices, no confirmation
+///   tag; the reader is left on the first padding byte.
 #[kani::proof]
 #[kani::unwind(12)]
 #[kani::stub(zeroize::optimization_barrier, noop_barrier)]
 fn c03_private_content_application_bounded_10() {
-    application_body::<10, true>();
-}
-
-#[kani::proof]
-#[kani::unwind(12)]
-#[kani::stub(zeroize::optimization_barrier, noop_barrier)]
-fn c03_tmp_application_bounded_10() {
     application_body::<10, false>();
 }
 
+/// Same, plus: mls_encode / mls_encoded_len of the decoded value reproduce exactly the consumed
+/// bytes (everything up to the padding).  Smaller buffer: the symbolic-length Vec writes of the
+/// encoder are expensive for CBMC.
 #[kani::proof]
-#[kani::unwind(8)]
+#[kani::unwind(10)]
 #[kani::stub(zeroize::optimization_barrier, noop_barrier)]
-fn c03_tmp_application_enc_bounded_5() {
-    application_body::<5, true>();
+fn c03_private_content_application_reencode_bounded_8() {
+    application_body::<8, true>();
 }
 
 /// Focused restatement of the padding rule alone: take ANY accepted buffer and flip ANY
